@@ -45,6 +45,7 @@ type walkerCase struct {
 	Fail     []int    `json:"fail"`
 	LatUs    []int    `json:"latUs"`    // per node, 0 = return immediately
 	OnCancel []string `json:"onCancel"` // per node: abort | fail | ignore
+	FailKind []string `json:"failKind"` // per node: how a failing callback fails: error | deadline (wraps context.DeadlineExceeded)
 	Yield    bool     `json:"yield"`    // runtime.Gosched() in zero-latency callbacks
 	Workers  int      `json:"workers"`  // 0 = callbacks run directly, >0 = through the real worker pool
 	// external cancellation: after this many logged events (-1 = never) and/or after this many µs
@@ -197,6 +198,10 @@ func runWalkerCase(wc walkerCase) (map[string]any, error) {
 			return dag.CacheMiss, nil
 		case "cancelled":
 			return dag.CacheMiss, fmt.Errorf("interrupted: %w", context.Canceled)
+		}
+		if i < len(wc.FailKind) && wc.FailKind[i] == "deadline" {
+			// what a target that exceeds its own `timeout:` may look like: a failure, not a cancellation of the walk
+			return dag.CacheMiss, fmt.Errorf("timeout after 1s: %w", context.DeadlineExceeded)
 		}
 		return dag.CacheMiss, errors.New("target failed")
 	}
